@@ -321,11 +321,9 @@ META = {
     ],
 }
 
-W.concrete = True
-try:
-    check_minmax("<=", True, 3, [1, 5], {"fix"})
-    check_in(2, [1, 2], [2, 3], {"fix", "trim"})
-    check_getitem((1, 2), [1, 2], (1, 3), [1, 5], {"create"})
-    check_eq(True, True, 1, 1, {"update"})
-finally:
-    W.concrete = False
+world.prewarm(
+    lambda: check_minmax("<=", True, 3, [1, 5], {"fix"}),
+    lambda: check_in(2, [1, 2], [2, 3], {"fix", "trim"}),
+    lambda: check_getitem((1, 2), [1, 2], (1, 3), [1, 5], {"create"}),
+    lambda: check_eq(True, True, 1, 1, {"update"}),
+)
